@@ -61,3 +61,15 @@ Theorem C01_completed_means_responder_finished :
     exists nB stB outs, In (nB, stB, outs) (trace (init_node b) stepsB) /\ completion_input (st_in stB) = true.
 Proof. exact completed_means_responder_finished. Qed.
 Print Assumptions C01_completed_means_responder_finished.
+
+From DT Require GenHandlers HandlerEq.
+
+(* what the manager does when the transport reports the end of its part (an error: fail unless already
+   failing; the initiator: record FinishTransfer; the responder: send the final Complete, paused iff
+   finalization is required, then Complete / BeginFinalizing) runs like the program regenerated from
+   impl/events.go OnChannelCompleted on every run *)
+Theorem C01_completion_handler_is_the_sources : forall k failed,
+  HandlerEq.runs_like (HandlerEq.with_self (fun self => GenHandlers.gen_OnChannelCompleted self k failed)) (Node.on_channel_completed k failed) /\
+  HandlerEq.runs_like (GenHandlers.gen_OnChannelOpened k) (Node.on_channel_opened k).
+Proof. exact HandlerEq.completion_handlers_are_source. Qed.
+Print Assumptions C01_completion_handler_is_the_sources.
